@@ -32,16 +32,16 @@ func chanIdentD(v ssa.Value, depth int) string {
 			case *ssa.FieldAddr:
 				id := fieldIDOfAddr(a)
 				return "field:" + id.Type + "." + id.Field
-			case *ssa.Alloc:
-				return "var:" + a.Parent().Name() + "." + a.Comment
-			case *ssa.FreeVar:
-				if b := resolveFreeVar(a); b != nil {
-					if al, ok := b.(*ssa.Alloc); ok {
-						return "var:" + al.Parent().Name() + "." + al.Comment
-					}
-					return chanIdentD(b, depth+1)
+			case *ssa.Alloc, *ssa.FreeVar:
+				if cell := cellOf(a); cell != nil {
+					return cellIdent(cell)
 				}
-				return "freevar:" + a.Name()
+				if fv, ok := a.(*ssa.FreeVar); ok {
+					if b := resolveFreeVar(fv); b != nil {
+						return chanIdentD(b, depth+1)
+					}
+					return "freevar:" + fv.Name()
+				}
 			case *ssa.Global:
 				return "global:" + a.Pkg.Pkg.Path() + "." + a.Name()
 			case *ssa.IndexAddr:
@@ -248,4 +248,36 @@ func closeSites(fn *ssa.Function) []BlockingOp {
 		}
 	})
 	return out
+}
+
+// cellOf chases a (possibly multiply captured) variable to its defining Alloc.
+func cellOf(v ssa.Value) *ssa.Alloc {
+	for i := 0; i < 8 && v != nil; i++ {
+		switch x := v.(type) {
+		case *ssa.Alloc:
+			return x
+		case *ssa.FreeVar:
+			v = resolveFreeVar(x)
+		default:
+			return nil
+		}
+	}
+	return nil
+}
+
+// cellIdent names a local variable cell; a cell that only ever holds a
+// parameter of its function is named after the parameter.
+func cellIdent(cell *ssa.Alloc) string {
+	var only ssa.Value
+	n := 0
+	for _, r := range refs(cell) {
+		if st, ok := r.(*ssa.Store); ok && st.Addr == cell {
+			n++
+			only = st.Val
+		}
+	}
+	if pa, ok := only.(*ssa.Parameter); ok && n == 1 {
+		return "param:" + pa.Parent().Name() + "." + pa.Name()
+	}
+	return "var:" + cell.Parent().Name() + "." + cell.Comment
 }
